@@ -525,9 +525,29 @@ Definition content_spec (X : ext) (cap : bool) (m : pmsg) (e : hres) : Prop :=
 
 (* whole-observation specs.  obs = what the logger recorded (Err: nothing),
    rt = the entry after export-to-JSON and parsing back (None: parse error) *)
+(* the message carries a body framing (Content-Length > 0 or a transfer coding) *)
+Definition has_framing (m : rmsg) : bool := negb (Z.leb (q_cl m) 0 && is_nil (q_te m))%bool.
+
+(* the body is declared a form / multipart body and does not parse as one *)
+Definition body_unparseable (X : ext) (m : rmsg) : Prop :=
+  let (mt, bnd) := media X (hget k_ct (q_hdrs m)) in
+  (mt = mt_multipart /\ mp_parse X bnd (q_body m) = None) \/
+  (mt = mt_form /\ form_parse X (q_body m) = None).
+
+Definition body_unparseable_b (X : ext) (m : rmsg) : bool :=
+  let (mt, bnd) := media X (hget k_ct (q_hdrs m)) in
+  if beq mt mt_multipart then match mp_parse X bnd (q_body m) with None => true | Some _ => false end
+  else if beq mt mt_form then match form_parse X (q_body m) with None => true | Some _ => false end
+  else false.
+
+(* a request may be missing from the log only if its body was to be parsed
+   into parameters (capture on, a body present) and cannot be *)
+Definition req_may_drop (X : ext) (cap : bool) (m : rmsg) : Prop :=
+  cap = true /\ has_framing m = true /\ body_unparseable X m.
+
 Definition req_spec (X : ext) (cap : bool) (m : rmsg) (obs : result hreq) (rt : option hreq) : Prop :=
   match obs with
-  | Err => True                       (* not logged: the property speaks of logged exchanges *)
+  | Err => req_may_drop X cap m
   | Ok e => req_fields_spec m e /\ post_spec X cap m e /\ rt = Some e
   end.
 
@@ -605,7 +625,7 @@ Definition content_ok (X : ext) (cap : bool) (m : pmsg) (e : hres) : bool :=
 
 Definition c16_req_ok (X : ext) (cap : bool) (m : rmsg) (obs : result hreq) (rt : option hreq) : bool :=
   match obs with
-  | Err => true
+  | Err => (cap && has_framing m && body_unparseable_b X m)%bool
   | Ok e => (req_fields_ok m e && post_ok X cap m e && opt_eq hreq_eq rt (Some e))%bool
   end.
 
